@@ -47,15 +47,15 @@ type pcF struct {
 // constant, subj is the quantity's key and set the values that make the test
 // true; otherwise key alone identifies it.
 type pcAtom struct {
-	key  string
-	subj string
-	set  ISet
-	lo   int64 // lower bound of subj's domain (0 for len), valid when hasLo
+	key   string
+	subj  string
+	set   ISet
+	lo    int64 // lower bound of subj's domain (0 for len), valid when hasLo
 	hasLo bool
 	// structure, for rules that classify atoms
-	op   token.Token // EQL (x == y), LSS (x < y), or ILLEGAL for an opaque boolean value
-	x, y ssa.Value
-	v    ssa.Value
+	op     token.Token // EQL (x == y), LSS (x < y), or ILLEGAL for an opaque boolean value
+	x, y   ssa.Value
+	v      ssa.Value
 	xk, yk string
 }
 
@@ -1463,8 +1463,8 @@ func floatAtom(a *pcAtom, isSubj func(ssa.Value) bool, c floatClass) (bool, bool
 // does not make a reviewed call site look like a new one.
 
 type ownerIndex struct {
-	refs   map[*ssa.Function]map[*ssa.Function]bool // function -> functions that mention it
-	iface  map[string]bool                            // method names of the module's interfaces
+	refs  map[*ssa.Function]map[*ssa.Function]bool // function -> functions that mention it
+	iface map[string]bool                          // method names of the module's interfaces
 }
 
 func (w *World) owners() *ownerIndex {
@@ -1631,6 +1631,7 @@ func (w *World) ownedDecls(pkgKey string, root *types.Func) []*ast.FuncDecl {
 	}
 	return out
 }
+
 // pcValuesWhen: the values integer subject subj can have when f holds (the
 // union, over the feasible assignments satisfying f, of what the tests on
 // subj allow).  ok=false when f is not decided.
